@@ -93,12 +93,76 @@ fn replay15(_fam: &str, bytes: &[u8], ctx: &Ctx) -> Result<CaseInfo, String> {
     replay_one(&fam15(), bytes, ctx)
 }
 
+/// A long history of variable creation on one thread: recursive relations that introduce fresh
+/// variables per unfolding, unfolded hundreds of times, in query after query. Expected answers
+/// are known in closed form (no interpreter needed).
+fn run_history(bytes: &[u8], ctx: &Ctx) -> CaseInfo {
+    use crate::ast::{Rel, Term};
+    use crate::run::{self, Limits, Mode};
+    use crate::source::{hash_str, Source};
+    let mut s = Source::new(bytes);
+    let k = 10 + s.below(90);
+    let which = s.below(2);
+    let nat = |n: usize| Term::list(vec![Term::Int(1); n]);
+    let mut info = CaseInfo::default();
+    let (p, desc) = if which == 0 {
+        (Program { nq: 1, body: vec![Goal::Call(Rel::LenLe, vec![Term::Var(0), nat(k)])] }, format!("lenle(q, <unary {}>)", k))
+    } else {
+        (Program { nq: 1, body: vec![Goal::Call(Rel::Downfrom, vec![nat(k), Term::Var(0)])] }, format!("downfrom(<unary {}>, q)", k))
+    };
+    info.key = hash_str(&desc);
+    info.nontrivial = true;
+    info.class(if which == 0 { "history:lenle" } else { "history:downfrom" });
+    let out = run::run(&p, Mode::Bfs, Limits { max_answers: 1000, budget: 5_000_000 });
+    if ctx.want_sample {
+        info.sample = Some(serde_json::json!({ "program": desc, "answers": out.answers.len(), "end": format!("{:?}", out.end) }));
+    }
+    if let run::End::Panic(pi) = &out.end {
+        info.fail(format!("C15:panic:{}", pi.key()), format!("{}\n  panicked: {} at {}", desc, pi.message, pi.location));
+        return info;
+    }
+    if !out.complete() {
+        return CaseInfo { skip: Some("incomplete"), ..info };
+    }
+    if which == 0 {
+        // answers: for every i in 0..=k the list of i pairwise distinct reified variables
+        let mut lens: Vec<usize> = vec![];
+        for a in &out.answers {
+            match a.terms[0].as_proper_list() {
+                Some(items) => {
+                    let mut vs = vec![];
+                    a.terms[0].vars(&mut vs);
+                    if vs.len() != items.len() || !items.iter().all(|t| t.is_var()) {
+                        info.fail("C15:fresh-variables-of-unfoldings-not-distinct", format!("{}\n  answer with {} elements has only {} distinct variables: {}", desc, items.len(), vs.len(), run::show_answer(a).chars().take(300).collect::<String>()));
+                        return info;
+                    }
+                    lens.push(items.len());
+                }
+                None => {
+                    info.fail("C15:history-wrong-answer", format!("{}\n  answer is not a proper list: {}", desc, run::show_answer(a).chars().take(300).collect::<String>()));
+                    return info;
+                }
+            }
+        }
+        lens.sort();
+        if lens != (0..=k).collect::<Vec<_>>() {
+            info.fail("C15:history-wrong-answer", format!("{}\n  expected one answer of every length 0..={}, got lengths {:?}", desc, k, lens.iter().take(40).collect::<Vec<_>>()));
+        }
+    } else {
+        let want = Term::list((0..k).map(|i| nat(k - i)).collect());
+        if out.answers.len() != 1 || out.answers[0].terms[0] != want {
+            info.fail("C15:history-wrong-answer", format!("{}\n  expected exactly the list of the {} suffixes, got {} answer(s): {}", desc, k, out.answers.len(), out.answers.first().map(|a| run::show_answer(a).chars().take(200).collect::<String>()).unwrap_or_default()));
+        }
+    }
+    info
+}
+
 pub fn def15() -> PropertyDef {
     PropertyDef {
         id: "C15",
-        rule: "programs in which the names x, y and q0 are bound again and again: nested and sibling fresh scopes, conde clauses, closure bodies, match arms that use the same pattern variable names h/t in every arm, and calls of recursive relations whose bodies create a fresh variable per unfolding (lenle, downfrom, append). Each program is emitted twice - with the shadowing names and alpha-renamed to globally unique names - compiled and run; oracle: both emissions give the same answer multiset, equal to the reference interpreter (which resolves variable ids, not names) and to the dynamic build. Non-trivial = a name shadows an outer binding, or a recursive relation with fresh variables is unfolded, or arms share pattern names; distinct = hash of the emitted program",
+        rule: "programs in which the names x, y and q0 are bound again and again: nested and sibling fresh scopes, conde clauses, closure bodies, match arms that use the same pattern variable names h/t in every arm, and calls of recursive relations whose bodies create a fresh variable per unfolding (lenle, downfrom, append). Each program is emitted twice - with the shadowing names and alpha-renamed to globally unique names - compiled and run; oracle: both emissions give the same answer multiset, equal to the reference interpreter (which resolves variable ids, not names) and to the dynamic build. Non-trivial = a name shadows an outer binding, or a recursive relation with fresh variables is unfolded, or arms share pattern names; distinct = hash of the emitted program. A second, in-process family (variable-history) runs recursive relations that create fresh variables per unfolding 10-100 levels deep, query after query on the same thread, and checks the closed-form answers (lenle: one list of i pairwise distinct variables for every i; downfrom: the list of suffixes), so that variable identity is also exercised over long creation histories",
         assumptions: vec!["a generated program that does not compile is a generator problem (tolerated up to 2%, else exit 2)", "reference interpreter correct"],
-        families: vec![],
+        families: vec![Family { name: "variable-history", max_len: 8, quick: 6_000, thorough: 100_000, run: run_history }],
         fixed: vec![],
         witnesses: vec![],
         exhaustive: None,
